@@ -481,3 +481,361 @@ Proof.
   rewrite (iter_step_content _ _ _ _ _ _ _ _ _ _ _ _ _ _ _ Hh Hc Hk Ht Hl Hn (fun _ => Hf)), Hcc.
   cbn [finish_content]. rewrite Ha. destruct Hbad as [-> | ->]; reflexivity.
 Qed.
+
+(* ---- the whole iteration: a defect ends it with DiffXParseError, the records yielded before are kept ---- *)
+Lemma iter_loop_parse : forall fuel orc chunk st valid encs prev acc l c,
+  iter_step orc chunk st valid encs prev = SParse l c ->
+  iter_loop (S fuel) orc chunk st valid encs prev acc = (rev acc, TParse l c).
+Proof. intros fuel orc chunk st valid encs prev acc l c H. cbn [iter_loop]. rewrite H, frev_rev. reflexivity. Qed.
+
+(* the records yielded before an iteration are a prefix of the final result *)
+Lemma iter_loop_prefix : forall fuel orc chunk st valid encs prev acc rs t,
+  iter_loop fuel orc chunk st valid encs prev acc = (rs, t) -> exists new, rs = rev acc ++ new.
+Proof.
+  intros fuel orc chunk st valid encs prev acc rs t H. apply iter_loop_path in H.
+  destruct H as (new & -> & _). exists new. reflexivity.
+Qed.
+
+(* [run ... rs ...]: the iterations that yield the records rs one after the other, and the loop state afterwards *)
+Inductive run (orc : oracle) (chunk : nat) :
+  rstate -> list bytes -> list (option pv) -> nat -> list record ->
+  rstate -> list bytes -> list (option pv) -> nat -> Prop :=
+| run_nil : forall st v e p, run orc chunk st v e p [] st v e p
+| run_cons : forall st v e p r st1 v1 e1 p1 rs st2 v2 e2 p2,
+    iter_step orc chunk st v e p = SYield r st1 v1 e1 p1 ->
+    run orc chunk st1 v1 e1 p1 rs st2 v2 e2 p2 ->
+    run orc chunk st v e p (r :: rs) st2 v2 e2 p2.
+
+Lemma iter_loop_run : forall orc chunk st v e p rs st2 v2 e2 p2,
+  run orc chunk st v e p rs st2 v2 e2 p2 ->
+  forall fuel acc,
+    iter_loop (List.length rs + fuel) orc chunk st v e p acc = iter_loop fuel orc chunk st2 v2 e2 p2 (rev rs ++ acc).
+Proof.
+  induction 1 as [|st v e p r st1 v1 e1 p1 rs st2 v2 e2 p2 Hs _ IH]; intros fuel acc; [reflexivity|].
+  cbn [List.length plus iter_loop]. rewrite Hs, IH. cbn [rev]. rewrite <- app_assoc. reflexivity.
+Qed.
+
+Lemma run_reach : forall orc chunk st v e p rs st2 v2 e2 p2,
+  run orc chunk st v e p rs st2 v2 e2 p2 -> reach orc chunk st v e p -> reach orc chunk st2 v2 e2 p2.
+Proof.
+  induction 1 as [|st v e p r st1 v1 e1 p1 rs st2 v2 e2 p2 Hs _ IH]; intro Hr; [exact Hr|].
+  apply IH. eapply reach_step; eauto.
+Qed.
+
+(* C03, rejection at the level of the loop: if the sections before the defective one yield the records rs and the
+   iteration on the defective section raises DiffXParseError(l, c), the iterator yields exactly rs and then raises it *)
+Theorem defect_after_prefix : forall orc chunk st v e p rs st2 v2 e2 p2 l c fuel acc,
+  run orc chunk st v e p rs st2 v2 e2 p2 ->
+  iter_step orc chunk st2 v2 e2 p2 = SParse l c ->
+  List.length rs < fuel ->
+  iter_loop fuel orc chunk st v e p acc = (rev acc ++ rs, TParse l c).
+Proof.
+  intros orc chunk st v e p rs st2 v2 e2 p2 l c fuel acc Hrun Hs Hf.
+  replace fuel with (List.length rs + S (fuel - List.length rs - 1)) by lia.
+  rewrite (iter_loop_run _ _ _ _ _ _ _ _ _ _ _ Hrun), (iter_loop_parse _ _ _ _ _ _ _ _ _ _ Hs).
+  rewrite rev_app_distr, rev_involutive. reflexivity.
+Qed.
+
+Definition init_state (data : bytes) : rstate :=
+  {| st_stream := {| s_data := data; s_pos := 0 |}; st_linenum := 0%Z; st_fnl := None |}.
+
+Theorem defect_read_all_fuel : forall orc chunk data rs st2 v2 e2 p2 l c,
+  run orc chunk (init_state data) [GenSections.sec_main] [None] 0 rs st2 v2 e2 p2 ->
+  iter_step orc chunk st2 v2 e2 p2 = SParse l c ->
+  List.length rs <= List.length data ->
+  read_all orc chunk data = (rs, TParse l c).
+Proof.
+  intros orc chunk data rs st2 v2 e2 p2 l c Hrun Hs Hlen. unfold read_all. fold (init_state data).
+  rewrite (defect_after_prefix _ _ _ _ _ _ _ _ _ _ _ _ _ _ [] Hrun Hs); [reflexivity|lia].
+Qed.
+
+(* ---- A.7 the line number of every parse error designates the section whose header was being read ---- *)
+Lemma read_content_parse_line : forall st len enc ind le keep l,
+  read_content st len enc ind le keep = CParse l -> l = st_linenum st \/ l = (st_linenum st - 1)%Z.
+Proof.
+  intros st len enc ind le keep l H. rewrite read_content_eq in H. cbv zeta in H. unfold decode_check, finish in H.
+  repeat match type of H with
+         | (if ?x then _ else _) = _ => destruct x
+         | (match ?x with _ => _ end) = _ => destruct x
+         end; try discriminate H; injection H as <-; auto.
+Qed.
+
+(* every DiffXParseError of one iteration of iter_sections is at the line of the header it read (or tried to
+   read), or at the line after it: n <= l <= n + 1 where n is the line counter before the header *)
+Theorem error_line_in_section : forall orc chunk st valid encs prev l c,
+  iter_step orc chunk st valid encs prev = SParse l c ->
+  l = st_linenum st \/ l = (st_linenum st + 1)%Z.
+Proof.
+  intros orc chunk st valid encs prev l c H. unfold iter_step in H.
+  destruct (read_header chunk valid st) as [|level name id opts line st1|l0 c0|e] eqn:Hh; try discriminate H.
+  - destruct (read_header_lines _ _ _ _ _ _ _ _ _ Hh) as [-> Hl1].
+    cbv beta zeta in H.
+    repeat match type of H with
+           | (match read_content ?a ?b ?c ?d ?e ?f with _ => _ end) = _ =>
+               let E := fresh "Ec" in destruct (read_content a b c d e f) eqn:E; try discriminate H;
+               try (apply read_content_parse_line in E; rewrite Hl1 in E)
+           | (match ?x with _ => _ end) = _ => destruct x eqn:?; try discriminate H
+           | (if ?x then _ else _) = _ => destruct x eqn:?; try discriminate H
+           end;
+      injection H as <- _; first [left; reflexivity | destruct Ec as [-> | ->]; [right; reflexivity | left; lia]].
+  - injection H as <- _. left. eapply read_header_parse_line; eauto.
+Qed.
+
+Corollary error_line_bounds : forall orc chunk st valid encs prev l c,
+  iter_step orc chunk st valid encs prev = SParse l c ->
+  (st_linenum st <= l <= st_linenum st + 1)%Z.
+Proof. intros orc chunk st valid encs prev l c H. apply error_line_in_section in H. lia. Qed.
+
+(* ================================================================================================= *)
+(* Part B: the positive direction for one section                                                     *)
+(* ================================================================================================= *)
+
+Lemma table_get_of_valid : forall valid encs prev id,
+  step_inv valid encs prev -> in_ids id valid = true -> exists valid', table_get id = Some valid'.
+Proof.
+  intros valid encs prev id Hinv Hin. apply in_ids_In in Hin.
+  destruct Hinv as [(-> & _ & _) | (a & -> & _ & _)].
+  - destruct Hin as [<- | []]. rewrite sec_main_is_Main. eexists. apply table_total.
+  - destruct (table_member _ _ Hin) as (b & _ & _ & _ & E). eexists. exact E.
+Qed.
+
+(* ---- B.1 container sections (diffx with a supported version, .change, ..file) ----
+   In every state the loop can be in, a container header that _read_header accepted is yielded with the level
+   (number of dots), the header's line, the parsed options (integers converted by parse_header) and no payload;
+   nothing but the header line is consumed. *)
+Theorem container_ok : forall orc chunk st valid encs prev level name id opts line st1,
+  step_inv valid encs prev ->
+  read_header chunk valid st = HdrOk level name id opts line st1 ->
+  is_content id = false ->
+  (id = GenSections.sec_main -> version_ok opts = true) ->
+  exists valid' encs',
+    iter_step orc chunk st valid encs prev =
+      SYield {| r_level := level; r_line := line; r_opts := opts; r_id := id; r_type := name; r_payload := PNone |}
+             st1 valid' encs' level /\
+    table_get id = Some valid' /\ id = build_id level name /\
+    line = st_linenum st /\ st_linenum st1 = (line + 1)%Z.
+Proof.
+  intros orc chunk st valid encs prev level name id opts line st1 Hinv Hh Hc Hver.
+  pose proof (read_header_lines _ _ _ _ _ _ _ _ _ Hh) as [Hline Hl1].
+  pose proof (read_header_ok_inv _ _ _ _ _ _ _ _ _ Hh) as (h & s1 & fnl & Hn & Hp & _ & Hst1).
+  destruct (proj1 (parse_header_ok_iff valid h level name id) (ex_intro _ opts Hp)) as (ostr & Hm & Hid & Hin & Hwf).
+  subst id.
+  destruct (C10_accepts_container orc chunk st valid encs prev h s1 fnl level name ostr Hinv Hn Hm Hin Hwf Hc)
+    as (r & valid' & encs' & Hs & _ & _ & _ & Hpay & Htab).
+  { intros E opts' Hp'. rewrite Hp in Hp'. injection Hp' as <-. specialize (Hver E). unfold version_ok in Hver.
+    destruct (opt_get "version" opts) as [[z|v]|]; try discriminate Hver. exists v. auto. }
+  exists valid', encs'. rewrite <- Hst1 in Hs.
+  pose proof (iter_step_yield_record _ _ _ _ _ _ _ _ _ _ _ _ _ _ _ _ _ Hh Hs) as Hr. rewrite Hpay in Hr.
+  rewrite Hr in Hs. auto.
+Qed.
+
+(* ---- B.2 content sections ---- *)
+
+(* what a successful _read_content has done: the content is exactly the first min(length, available) bytes after
+   the header, split on the declared or first-line-detected newline, indentation stripped before decoding with
+   the encoding in force, bytes kept for diffs (and when no encoding is in force); the content ends with its
+   newline; the line counter advances by the number of lines *)
+Lemma read_content_ok_inv : forall st len enc ind le keep p st2,
+  read_content st len enc ind le keep = COk p st2 ->
+  content_bytes st len <> [] /\ enc_valid enc /\ indent_valid ind /\
+  exists newline lines,
+    nl_res_of le (enc_name enc) (content_bytes st len) = Ok newline /\
+    split_lines (content_bytes st len) newline true = Ok lines /\
+    st2 = state_after st (stream_after st len) (List.length lines) /\
+    match enc_name enc, keep with
+    | Some e, false =>
+        exists t nlt, py_decode (strip_indent ind (content_bytes st len) lines) e = Ok t /\
+                      py_decode newline e = Ok nlt /\ suffixb N.eqb nlt t = true /\ p = PText t
+    | _, _ => bends newline (strip_indent ind (content_bytes st len) lines) = true /\
+              p = PBytes (strip_indent ind (content_bytes st len) lines)
+    end.
+Proof.
+  intros st len enc ind le keep p st2 H. rewrite read_content_eq in H. cbv zeta in H.
+  destruct (content_bytes st len) as [|c0 ct] eqn:Ec; [discriminate H|]. cbn [is_nil] in H.
+  split; [discriminate|].
+  assert (Hbody :
+    (if indent_bad ind then CParse (st_linenum st - 1)%Z
+     else match nl_res_of le (enc_name enc) (c0 :: ct) with
+          | Ok newline =>
+              match split_lines (c0 :: ct) newline true with
+              | Ok lines => decode_check st (stream_after st len) (List.length lines) (enc_name enc) keep newline
+                                         (strip_indent ind (c0 :: ct) lines)
+              | Err e => CExc e
+              end
+          | Err e => if caught_as_parse e then CParse (st_linenum st) else CExc e
+          end) = COk p st2 /\ enc_valid enc).
+  { destruct enc as [[z|s]|]; [discriminate H| |]; split; first [exact H | exact I]. }
+  clear H. destruct Hbody as [H He]. split; [exact He|].
+  destruct (indent_bad ind) eqn:Hi; [discriminate H|]. split; [exact Hi|].
+  destruct (nl_res_of le (enc_name enc) (c0 :: ct)) as [newline|e]; [|destruct (caught_as_parse e); discriminate H].
+  destruct (split_lines (c0 :: ct) newline true) as [lines|e]; [|discriminate H].
+  exists newline, lines. split; [reflexivity|]. split; [reflexivity|].
+  unfold decode_check, finish in H.
+  destruct (enc_name enc) as [e|]; [destruct keep|].
+  - destruct (bends newline _) eqn:Hb; [|discriminate H]. injection H as <- <-. auto.
+  - destruct (py_decode (strip_indent ind (c0 :: ct) lines) e) as [t|ex]; [|destruct (caught_as_parse ex); discriminate H].
+    destruct (py_decode newline e) as [nlt|ex]; [|destruct (caught_as_parse ex); discriminate H].
+    destruct (suffixb N.eqb nlt t) eqn:Hs; [|discriminate H]. injection H as <- <-.
+    split; [reflexivity|]. exists t, nlt. auto.
+  - destruct (bends newline _) eqn:Hb; [|discriminate H]. injection H as <- <-. auto.
+Qed.
+
+(* the bytes read are the next bytes of the stream, and the stream continues right after them *)
+Lemma content_bytes_split : forall st len,
+  remaining (st_stream st) = content_bytes st len ++ remaining (stream_after st len) /\
+  List.length (content_bytes st len) = content_len st len.
+Proof.
+  intros st len. unfold stream_after. destruct (st_stream st) as [data pos] eqn:Es.
+  rewrite remaining_advance. cbn [s_data s_pos].
+  assert (List.length (content_bytes st len) = content_len st len) as Hlen.
+  { unfold content_bytes. rewrite firstn_length. unfold content_len. lia. }
+  split; [|exact Hlen]. rewrite Hlen. unfold content_bytes. rewrite Es. symmetry. apply firstn_skipn.
+Qed.
+
+Lemma content_len_exact : forall st len,
+  (0 <= len <= Z.of_nat (List.length (remaining (st_stream st))))%Z -> (len <= sys_maxsize)%Z ->
+  content_len st len = Z.to_nat len.
+Proof. intros st len H1 H2. unfold content_len. lia. Qed.
+
+(* C03, acceptance of one content section: when _read_content succeeds (and, for metadata, json.loads answered
+   with a value) the iteration yields the record with the header's level, line and options, and the payload;
+   the line counter is then header line + 1 + number of content lines, the stream is right after the content *)
+Theorem content_ok : forall orc chunk st valid encs prev level name id opts line st1 k inh len p st2 q,
+  step_inv valid encs prev ->
+  read_header chunk valid st = HdrOk level name id opts line st1 ->
+  is_content id = true -> kind_of id = Some k ->
+  top encs = Some inh ->
+  opt_get "length" opts = Some (VInt len) -> (0 <= len)%Z ->
+  (k = KMeta -> fmt_ok opts = true) ->
+  content_call k st1 len opts inh = COk p st2 ->
+  match k with
+  | KMeta => exists j, assoc_get beq (oracle_key p) orc = Some (LoadsOk j) /\ q = PMeta j
+  | _ => q = p
+  end ->
+  exists valid',
+    iter_step orc chunk st valid encs prev =
+      SYield {| r_level := level; r_line := line; r_opts := opts; r_id := id; r_type := name; r_payload := q |}
+             st2 valid' encs prev /\
+    table_get id = Some valid' /\ line = st_linenum st /\
+    exists newline lines,
+      nl_res_of (opt_get "line_endings" opts) (enc_name (encoding_of k opts inh)) (content_bytes st1 len) = Ok newline /\
+      split_lines (content_bytes st1 len) newline true = Ok lines /\
+      st_linenum st2 = (line + 1 + Z.of_nat (List.length lines))%Z /\
+      st_stream st2 = stream_after st1 len /\ st_fnl st2 = st_fnl st1.
+Proof.
+  intros orc chunk st valid encs prev level name id opts line st1 k inh len p st2 q
+         Hinv Hh Hc Hk Ht Hl Hn Hf Hcc Hq.
+  pose proof (read_header_lines _ _ _ _ _ _ _ _ _ Hh) as [Hline Hl1].
+  pose proof (read_header_ok_inv _ _ _ _ _ _ _ _ _ Hh) as (h & s1 & fnl & _ & Hp & _ & _).
+  apply parse_header_ok_inv in Hp. destruct Hp as (ostr & _ & _ & Hin).
+  destruct (table_get_of_valid _ _ _ _ Hinv Hin) as (valid' & Htab).
+  exists valid'. split; [|split; [exact Htab|split; [exact Hline|]]].
+  - rewrite (iter_step_content _ _ _ _ _ _ _ _ _ _ _ _ _ _ _ Hh Hc Hk Ht Hl Hn Hf), Hcc.
+    destruct k; cbn [finish_content]; unfold yield.
+    + subst q. rewrite Htab. reflexivity.
+    + destruct Hq as (j & -> & ->). rewrite Htab. reflexivity.
+    + subst q. rewrite Htab. reflexivity.
+  - rewrite content_call_eq in Hcc. apply read_content_ok_inv in Hcc.
+    destruct Hcc as (_ & _ & _ & newline & lines & Hnl & Hsl & -> & _).
+    exists newline, lines. cbn [state_after st_linenum st_stream st_fnl]. rewrite Hl1. auto.
+Qed.
+
+(* ---- B.3 blank (whitespace-only) lines before a header ---- *)
+Lemma next_nonblank_fuel : forall f1 f2 chunk s,
+  0 < chunk -> List.length (remaining s) < f1 -> List.length (remaining s) < f2 ->
+  next_nonblank f1 chunk s = next_nonblank f2 chunk s.
+Proof.
+  induction f1 as [|f1 IH]; intros f2 chunk s Hc H1 H2; [lia|]. destruct f2 as [|f2]; [lia|].
+  cbn [next_nonblank]. rewrite read_until_abs_correct by assumption. cbn [bind].
+  destruct (read_until_abs s) as [[line eof] s1] eqn:E.
+  destruct eof; [reflexivity|]. destruct (nonempty (strip line)); [reflexivity|].
+  destruct (read_until_abs_exact _ _ _ _ E) as (_ & _ & _ & D & _).
+  destruct (read_until_abs_shape _ _ _ _ E) as [Sh _]. destruct (Sh eq_refl) as (l0 & Hl & _).
+  assert (List.length (remaining s1) < List.length (remaining s)) as Hlt.
+  { rewrite D, Hl, !app_length. cbn [List.length]. lia. }
+  apply IH; [assumption|lia|lia].
+Qed.
+
+Lemma next_nonblank_skip_blank : forall chunk s l s1,
+  0 < chunk -> read_until chunk s = Ok (l, false, s1) -> strip l = [] ->
+  next_nonblank (S (List.length (remaining s))) chunk s = next_nonblank (S (List.length (remaining s1))) chunk s1.
+Proof.
+  intros chunk s l s1 Hc Hr Hs.
+  assert (List.length (remaining s1) < List.length (remaining s)) as Hlt.
+  { rewrite read_until_abs_correct in Hr by assumption. injection Hr as Hr.
+    destruct (read_until_abs_exact _ _ _ _ Hr) as (_ & _ & _ & D & _).
+    destruct (read_until_abs_shape _ _ _ _ Hr) as [Sh _]. destruct (Sh eq_refl) as (l0 & Hl & _).
+    rewrite D, Hl, !app_length. cbn [List.length]. lia. }
+  set (n := List.length (remaining s)) in *.
+  transitivity (next_nonblank n chunk s1).
+  - cbn [next_nonblank]. rewrite Hr. cbn [bind]. rewrite Hs. reflexivity.
+  - apply next_nonblank_fuel; [assumption|lia|lia].
+Qed.
+
+(* a blank line in front of a header changes nothing: not the header read, not its line number (blank lines
+   between sections are not counted), not the record, not the outcome of the iteration *)
+Definition with_stream (st : rstate) (s : stream) : rstate :=
+  {| st_stream := s; st_linenum := st_linenum st; st_fnl := st_fnl st |}.
+
+Theorem blank_line_skipped_header : forall chunk valid st l s1,
+  0 < chunk -> read_until chunk (st_stream st) = Ok (l, false, s1) -> strip l = [] ->
+  read_header chunk valid st = read_header chunk valid (with_stream st s1).
+Proof.
+  intros chunk valid st l s1 Hc Hr Hs. unfold read_header. cbn [with_stream st_stream st_linenum st_fnl].
+  rewrite (next_nonblank_skip_blank _ _ _ _ Hc Hr Hs). reflexivity.
+Qed.
+
+Theorem blank_line_skipped : forall orc chunk valid encs prev st l s1,
+  0 < chunk -> read_until chunk (st_stream st) = Ok (l, false, s1) -> strip l = [] ->
+  iter_step orc chunk st valid encs prev = iter_step orc chunk (with_stream st s1) valid encs prev.
+Proof.
+  intros orc chunk valid encs prev st l s1 Hc Hr Hs. unfold iter_step.
+  rewrite (blank_line_skipped_header _ valid _ _ _ Hc Hr Hs). reflexivity.
+Qed.
+
+(* the same, with the blank line described directly: whitespace bytes other than LF, then LF *)
+Lemma find_byte_not_in : forall c l k, ~ In c l -> find_byte c l k = None.
+Proof.
+  induction l as [|x t IH]; intros k H; cbn [find_byte]; [reflexivity|].
+  destruct (byte_eqb x c) eqn:E.
+  - exfalso. apply H. left. unfold byte_eqb in E. apply Byte.byte_dec_bl in E. exact E.
+  - apply IH. intro Hin. apply H. right. exact Hin.
+Qed.
+
+Lemma lstrip_all_space : forall l, forallb is_space l = true -> lstrip l = [].
+Proof.
+  induction l as [|x t IH]; intro H; [reflexivity|]. cbn [forallb] in H. apply andb_true_iff in H.
+  destruct H as [Hx Ht]. cbn [lstrip]. rewrite Hx. apply IH. exact Ht.
+Qed.
+
+Lemma strip_all_space : forall l, forallb is_space l = true -> strip l = [].
+Proof. intros l H. unfold strip. rewrite (lstrip_all_space l H). reflexivity. Qed.
+
+Definition skip_bytes (s : stream) (k : nat) : stream := {| s_data := s_data s; s_pos := s_pos s + k |}.
+
+Theorem blank_line_skipped_bytes : forall orc chunk valid encs prev st w rest,
+  0 < chunk ->
+  remaining (st_stream st) = w ++ lf :: rest -> forallb is_space w = true -> ~ In lf w ->
+  iter_step orc chunk st valid encs prev =
+  iter_step orc chunk (with_stream st (skip_bytes (st_stream st) (List.length w + 1))) valid encs prev /\
+  remaining (skip_bytes (st_stream st) (List.length w + 1)) = rest.
+Proof.
+  intros orc chunk valid encs prev st w rest Hc Hrem Hw Hnl.
+  assert (Hf : find_byte lf (remaining (st_stream st)) 0 = Some (List.length w)).
+  { rewrite Hrem, (find_byte_app_none _ _ _ _ (find_byte_not_in lf w 0 Hnl)). cbn [find_byte plus].
+    replace (byte_eqb lf lf) with true by reflexivity. reflexivity. }
+  assert (Hline : firstn (List.length w + 1) (remaining (st_stream st)) = w ++ [lf]).
+  { rewrite Hrem. change (lf :: rest) with ([lf] ++ rest). rewrite app_assoc.
+    rewrite firstn_app. replace (List.length w + 1 - List.length (w ++ [lf])) with 0
+      by (rewrite app_length; cbn [List.length]; lia).
+    rewrite firstn_O, app_nil_r. apply firstn_all2. rewrite app_length. cbn [List.length]. lia. }
+  split.
+  - apply (blank_line_skipped orc chunk valid encs prev st (w ++ [lf])); [assumption| |].
+    + rewrite read_until_abs_correct by assumption. unfold read_until_abs. rewrite Hf, Hline. reflexivity.
+    + apply strip_all_space. rewrite forallb_app, Hw. reflexivity.
+  - unfold skip_bytes. destruct (st_stream st) as [data pos]. rewrite remaining_advance. cbn [s_data s_pos].
+    rewrite Hrem. change (lf :: rest) with ([lf] ++ rest). rewrite app_assoc.
+    rewrite skipn_app. replace (List.length w + 1 - List.length (w ++ [lf])) with 0
+      by (rewrite app_length; cbn [List.length]; lia).
+    rewrite skipn_all2 by (rewrite app_length; cbn [List.length]; lia). reflexivity.
+Qed.
